@@ -14,9 +14,14 @@
 //!   c12.corpus     /repo/files/*.pdf: per object all orderings of its call kinds + random sequences,
 //!                  values compared by a hash of their Debug text (lines sorted: HashMap order)
 //!   c12.prefix     a call after a random prefix answers what it answers as the first call
+//!   c12.paths      construction paths of a configuration (c12_paths.rs): every order of the builder calls, `cached()`,
+//!                  `Storage::with_cache` + `File::new`, `set_options` × six parse option sets × documents that tell the
+//!                  option sets apart (and one that needs its password): same answers as the plainest construction
 
 #[path = "c12_doc.rs"]
 pub mod doc;
+#[path = "c12_paths.rs"]
+pub mod paths;
 
 use crate::driver::Driver;
 use crate::report::{Oracle, Report, Stream as RStream};
@@ -142,7 +147,7 @@ fn ok(s: String) -> String {
 }
 
 /// one top level call on an open file; `None` resolver = a fresh one (`File::resolver`)
-pub fn do_call<OC, SC>(file: &File<Vec<u8>, OC, SC, NoLog>, resolver: &impl Resolve, c: &Call, mode: Mode) -> String
+pub fn do_call<OC, SC, L: pdf::file::Log>(file: &File<Vec<u8>, OC, SC, L>, resolver: &impl Resolve, c: &Call, mode: Mode) -> String
 where
     OC: Cache<Result<AnySync, Arc<PdfError>>>,
     SC: Cache<Result<Arc<[u8]>, Arc<PdfError>>>,
@@ -695,6 +700,7 @@ pub fn run(driver: &Driver, seed: u64, thorough: bool, replay: Option<&serde_jso
             "c12.cyclic" => rep.streams.push(stream_random(driver, "c12.cyclic", seed, case, case + 1, true, &mut or)),
             "c12.corpus" => rep.oracles.push(oracle_corpus(seed, true, Some((r["file"].as_str().unwrap_or(""), case)))),
             "c12.prefix" => rep.oracles.push(oracle_prefix(seed, case + 1)),
+            "c12.paths" => rep.oracles.push(paths::oracle_paths(Some(r))),
             _ => rep.streams.push(stream_witness(driver, &mut or)),
         }
         rep.oracles.push(or);
@@ -712,5 +718,6 @@ pub fn run(driver: &Driver, seed: u64, thorough: bool, replay: Option<&serde_jso
     rep.streams.push(stream_domain(driver, seed, if thorough { 50_000 } else { 1500 }));
     rep.oracles.push(oracle_prefix(seed, if thorough { 30_000 } else { 1500 }));
     rep.oracles.push(oracle_corpus(seed, thorough, None));
+    rep.oracles.push(paths::oracle_paths(None));
     rep
 }
